@@ -138,7 +138,7 @@ Print Assumptions C05_composite_event_is_driver_event.
    for EVERY list of tasks -- any number, on either module, spawned at start-up or by a message
    at any instant, any durations (zero, equal, coinciding across tasks and modules ...) -- the
    run of the model ENDS (the loop's fuel is never exhausted), every task has finished, and
-   task k has logged exactly  exp_run (t_start k) None (t_steps k)  (None: the task starts without an interval):  the entry after sleep(d) begun
+   task k has logged exactly  exp_run (t_start k) None noarr (t_steps k)  (None: the task starts without an interval; noarr: no channels):  the entry after sleep(d) begun
    at x is x + d, after sleep_until(t) it is max x t -- every await returned at exactly its
    deadline.  [init_ok]: the task is as the decoder produces it (not yet polled, module < 2),
    its steps lie in the fragment and the deadlines it prescribes are finite (< TMAX); [decode_init_ok] shows that every script line over the
@@ -148,11 +148,11 @@ Print Assumptions C05_composite_event_is_driver_event.
    event of minimal time).  The same theorem covers the steps added to the fragment since --
    reset / drop, timeout(d, sleep x), interval, the keep-alive select of step 13: see the
    theorems (1)-(4) below, which spell out frag_step and exp_run for them.  Still covered
-   for the composite by the correspondence check only: timeout over flip or a receive, hand-over of a polled Sleep, message-driven receives, and
+   for the composite by the correspondence check only: timeout over flip, hand-over of a polled Sleep, message-driven receives, and
    Duration::MAX deadlines that stay registered. *)
 Theorem C05_composite_sleep_exact : forall ts, Forall init_ok ts ->
   exists w, run_tasks true ts = (w, true) /\
-    Forall2 (fun tk0 tk => t_fin tk = true /\ t_log tk = exp_run (t_start tk0) None (t_steps tk0)) ts (w_tasks w).
+    Forall2 (fun tk0 tk => t_fin tk = true /\ t_log tk = exp_run (t_start tk0) None noarr (t_steps tk0)) ts (w_tasks w).
 Proof. exact composite_sleep_exact. Qed.
 Print Assumptions C05_composite_sleep_exact.
 
@@ -160,7 +160,7 @@ Print Assumptions C05_composite_sleep_exact.
    demand: after any number n of loop iterations each task's log is a prefix of exp_run *)
 Theorem C05_composite_sleep_prefix : forall ts, Forall init_ok ts -> forall n,
   let w := match Common.Fuel.iter_nat n (loop_step true) (sim_start true (init_world ts)) with inl w => w | inr w => w end in
-  Forall2 (fun tk0 tk => exists rest, exp_run (t_start tk0) None (t_steps tk0) = t_log tk ++ rest) ts (w_tasks w).
+  Forall2 (fun tk0 tk => exists rest, exp_run (t_start tk0) None noarr (t_steps tk0) = t_log tk ++ rest) ts (w_tasks w).
 Proof. exact composite_sleep_prefix. Qed.
 Print Assumptions C05_composite_sleep_prefix.
 
@@ -174,11 +174,11 @@ Print Assumptions C05_composite_sleep_prefix.
 Theorem C05_composite_reset_drop_exact :
   (forall p d1 d2, d1 < FARK -> d2 < FARK -> frag_step (SReset p d1 d2)) /\
   (forall d, d < FARK -> frag_step (SDropSleep d)) /\
-  (forall now iv p d1 d2 r, exp_run now iv (SReset p d1 d2 :: r) = (now + d2) :: exp_run (now + d2) iv r) /\
-  (forall now iv d r, exp_run now iv (SDropSleep d :: r) = now :: exp_run now iv r) /\
+  (forall now iv arr p d1 d2 r, exp_run now iv arr (SReset p d1 d2 :: r) = (now + d2) :: exp_run (now + d2) iv arr r) /\
+  (forall now iv arr d r, exp_run now iv arr (SDropSleep d :: r) = now :: exp_run now iv arr r) /\
   (forall ts, Forall init_ok ts ->
      exists w, run_tasks true ts = (w, true) /\
-       Forall2 (fun tk0 tk => t_fin tk = true /\ t_log tk = exp_run (t_start tk0) None (t_steps tk0)) ts (w_tasks w)).
+       Forall2 (fun tk0 tk => t_fin tk = true /\ t_log tk = exp_run (t_start tk0) None noarr (t_steps tk0)) ts (w_tasks w)).
 Proof.
   split; [intros p d1 d2 H1 H2; split; assumption|]. split; [intros d H; exact H|].
   split; [reflexivity|]. split; [reflexivity|exact composite_sleep_exact].
@@ -199,14 +199,14 @@ Print Assumptions C05_composite_reset_drop_exact.
    exp_run does not depend on that order since the tasks of the fragment do not communicate. *)
 Theorem C05_composite_timeout_sleep_exact :
   (forall d x, d < FARK -> x < FARK -> frag_step (STimeout d (ISleep x))) /\
-  (forall now iv d x r, exp_run now iv (STimeout d (ISleep x) :: r) =
-     (now + N.min x d) :: (if x <=? d then 1 else 0) :: exp_run (now + N.min x d) iv r) /\
+  (forall now iv arr d x r, exp_run now iv arr (STimeout d (ISleep x) :: r) =
+     (now + N.min x d) :: (if x <=? d then 1 else 0) :: exp_run (now + N.min x d) iv arr r) /\
   (forall ts, Forall init_ok ts ->
      exists w, run_tasks true ts = (w, true) /\
-       Forall2 (fun tk0 tk => t_fin tk = true /\ t_log tk = exp_run (t_start tk0) None (t_steps tk0)) ts (w_tasks w)).
+       Forall2 (fun tk0 tk => t_fin tk = true /\ t_log tk = exp_run (t_start tk0) None noarr (t_steps tk0)) ts (w_tasks w)).
 Proof.
   split; [intros d x H1 H2; split; assumption|].
-  split; [intros now iv d x r; cbn [exp_run]; destruct (x <=? d); reflexivity|exact composite_sleep_exact].
+  split; [intros now iv arr d x r; cbn [exp_run step_log step_time step_iv step_arr app]; destruct (x <=? d); reflexivity|exact composite_sleep_exact].
 Qed.
 Print Assumptions C05_composite_timeout_sleep_exact.
 
@@ -228,23 +228,23 @@ Print Assumptions C05_composite_timeout_sleep_exact.
    No FIFO or fairness hypothesis. *)
 Theorem C05_composite_interval_exact :
   (forall p b, 0 < p -> frag_step (SIvNew p b)) /\ frag_step SIvTick /\ frag_step SIvDrop /\
-  (forall now iv p b r, exp_run now iv (SIvNew p b :: r) = exp_run now (Some (now, p, b)) r) /\
-  (forall now iv r, exp_run now iv (SIvDrop :: r) = exp_run now None r) /\
-  (forall now nx p b r, exp_run now (Some (nx, p, b)) (SIvTick :: r) =
-     N.max now nx :: nx :: exp_run (N.max now nx) (Some (tick_next b nx (N.max now nx) p, p, b)) r) /\
-  (forall now r, exp_run now None (SIvTick :: r) = now :: 0 :: exp_run now None r) /\
+  (forall now iv arr p b r, exp_run now iv arr (SIvNew p b :: r) = exp_run now (Some (now, p, b)) arr r) /\
+  (forall now iv arr r, exp_run now iv arr (SIvDrop :: r) = exp_run now None arr r) /\
+  (forall now nx p b arr r, exp_run now (Some (nx, p, b)) arr (SIvTick :: r) =
+     N.max now nx :: nx :: exp_run (N.max now nx) (Some (tick_next b nx (N.max now nx) p, p, b)) arr r) /\
+  (forall now arr r, exp_run now None arr (SIvTick :: r) = now :: 0 :: exp_run now None arr r) /\
   (forall b nx t p, t <= nx + GRACE -> tick_next b nx t p = nx + p) /\
   (forall nx t p, tick_next Burst nx t p = nx + p) /\
   (forall nx t p, nx + GRACE < t -> tick_next Delay nx t p = t + p) /\
   (forall nx t p, nx + GRACE < t -> 0 < p ->
      tick_next Skip nx t p = nx + ((t - nx) / p + 1) * p /\ t < tick_next Skip nx t p <= t + p) /\
-  (forall busy now start p k r,
-     exp_run now (Some (start + N.of_nat k * p, p, Burst)) (ticks busy ++ r) =
+  (forall busy now start p k arr r,
+     exp_run now (Some (start + N.of_nat k * p, p, Burst)) arr (ticks busy ++ r) =
      burst_log now start p k busy ++
-     exp_run (burst_end now start p k busy) (Some (start + N.of_nat (k + length busy) * p, p, Burst)) r) /\
+     exp_run (burst_end now start p k busy) (Some (start + N.of_nat (k + length busy) * p, p, Burst)) arr r) /\
   (forall ts, Forall init_ok ts ->
      exists w, run_tasks true ts = (w, true) /\
-       Forall2 (fun tk0 tk => t_fin tk = true /\ t_log tk = exp_run (t_start tk0) None (t_steps tk0)) ts (w_tasks w)).
+       Forall2 (fun tk0 tk => t_fin tk = true /\ t_log tk = exp_run (t_start tk0) None noarr (t_steps tk0)) ts (w_tasks w)).
 Proof.
   split; [intros p b H; exact H|]. split; [exact I|]. split; [exact I|].
   split; [reflexivity|]. split; [reflexivity|]. split; [reflexivity|]. split; [reflexivity|].
@@ -271,15 +271,15 @@ Print Assumptions C05_composite_interval_exact.
    polled in program order within one poll of the task. *)
 Theorem C05_composite_keepalive_select_exact :
   (forall rearm d0 d2 x d3, d2 < FARK -> x < FARK -> d3 < FARK -> frag_step (SKeep rearm d0 d2 x d3)) /\
-  (forall now iv rearm d0 d2 x d3 r, exp_run now iv (SKeep rearm d0 d2 x d3 :: r) =
-     if d2 <=? x then (now + d2) :: 0 :: exp_run (now + d2) iv r
-     else (now + x) :: 1 :: (now + x + (if rearm then d3 else 0)) :: exp_run (now + x + (if rearm then d3 else 0)) iv r) /\
+  (forall now iv arr rearm d0 d2 x d3 r, exp_run now iv arr (SKeep rearm d0 d2 x d3 :: r) =
+     if d2 <=? x then (now + d2) :: 0 :: exp_run (now + d2) iv arr r
+     else (now + x) :: 1 :: (now + x + (if rearm then d3 else 0)) :: exp_run (now + x + (if rearm then d3 else 0)) iv arr r) /\
   (forall ts, Forall init_ok ts ->
      exists w, run_tasks true ts = (w, true) /\
-       Forall2 (fun tk0 tk => t_fin tk = true /\ t_log tk = exp_run (t_start tk0) None (t_steps tk0)) ts (w_tasks w)).
+       Forall2 (fun tk0 tk => t_fin tk = true /\ t_log tk = exp_run (t_start tk0) None noarr (t_steps tk0)) ts (w_tasks w)).
 Proof.
   split; [intros rearm d0 d2 x d3 H1 H2 H3; repeat split; assumption|].
-  split; [intros now iv rearm d0 d2 x d3 r; cbn [exp_run]; destruct (d2 <=? x); reflexivity|exact composite_sleep_exact].
+  split; [intros now iv arr rearm d0 d2 x d3 r; cbn [exp_run step_log step_time step_iv step_arr app]; destruct (d2 <=? x); reflexivity|exact composite_sleep_exact].
 Qed.
 Print Assumptions C05_composite_keepalive_select_exact.
 
@@ -291,19 +291,81 @@ Print Assumptions C05_composite_keepalive_select_exact.
    from the driver at that instant. *)
 Theorem C05_composite_select_exact :
   (forall biased a b, a < FARK -> b < FARK -> frag_step (SSelect biased a b)) /\
-  (forall now iv biased a b r, exp_run now iv (SSelect biased a b :: r) =
-     (now + N.min a b) :: (if a <? b then 0 else if b <? a then 1 else if biased then 0 else 2) :: exp_run (now + N.min a b) iv r) /\
+  (forall now iv arr biased a b r, exp_run now iv arr (SSelect biased a b :: r) =
+     (now + N.min a b) :: (if a <? b then 0 else if b <? a then 1 else if biased then 0 else 2) :: exp_run (now + N.min a b) iv arr r) /\
   (forall ts, Forall init_ok ts ->
      exists w, run_tasks true ts = (w, true) /\
-       Forall2 (fun tk0 tk => t_fin tk = true /\ t_log tk = exp_run (t_start tk0) None (t_steps tk0)) ts (w_tasks w)).
+       Forall2 (fun tk0 tk => t_fin tk = true /\ t_log tk = exp_run (t_start tk0) None noarr (t_steps tk0)) ts (w_tasks w)).
 Proof.
   split; [intros biased a b H1 H2; split; assumption|]. split; [|exact composite_sleep_exact].
-  intros now iv biased a b r. cbn [exp_run]. rewrite sel_code_cases. reflexivity.
+  intros now iv arr biased a b r. cbn [exp_run step_log step_time step_iv step_arr app]. rewrite sel_code_cases. reflexivity.
 Qed.
 Print Assumptions C05_composite_select_exact.
 
+(* (2b) timeout(d, receive from ch), with the messages sent by other tasks of the module, inside
+   the proved fragment.  A sender hands over a boxed sleep(0) that it has polled once -- an
+   already elapsed Sleep, which is never registered: a mere token (SHandOver ch 0; the hand-over
+   of a LIVE registered Sleep stays outside the proved fragment, see C05_woken_through_last_poller
+   and the correspondence check).  The instants at which messages enter channel ch of module m
+   are fixed by the scripts of the senders: [arrivals ts m ch] is their sorted list.  A receive
+   begun at [now] whose next message arrives at instant a:
+     a < now + d   ->  Ok (logged 1) at max(now, a): at once if the message is waiting, else at the
+                       very instant it is sent (the send wakes the receiver within the same event);
+     otherwise     ->  Elapsed (0) at exactly now + d, the message staying for the next receive.
+   The delay timer of a receive that got its message is removed from the driver; this is the
+   first step of the fragment in which a registered timer is cancelled in a LATER event than the
+   one that registered it, so wake-ups can now go stale (next_wakeup_stuck's territory): the
+   invariant no longer claims next_wakeup's slot is live, and termination is proved with the
+   measure 2 * work + |event set| + stale wake-ups (Timer/E2EEvent.v module_event_measure).
+   HYPOTHESES on the task list, all in [chan_ok] (decidable: chan_okb):
+     (R1) a task either receives or sends, not both (frag_step2 (rcv_of tk));
+     (R2) at most one task of a module receives (one_recv);
+     (R3) no message arrives at the very instant the receive it would satisfy elapses, a = now + d
+          (recv_ok; also now + d < SimTime::MAX).
+   (R3) is where the EXECUTOR'S ORDER would decide: at such a tie the receiver (woken by its
+   delay timer) and the sender are polled in the same event, and the result is Ok iff the sender
+   is polled first.  In the model the run queue of an event is FIFO in wake order: the due timer
+   entries in slot order, i.e. registration order, then the tasks spawned by the event, then
+   receivers woken by sends (Model.v run_queue; proved properties of it: Timer/E2EPoll.v
+   run_queue_frag).  des itself wakes in that order and tokio's current_thread LocalSet polls
+   woken tasks FIFO as long as fewer than 61 are woken per tick (C06: coq/Exec/Model.v has the
+   budget rules); a multi-thread runtime, a LIFO slot or a larger batch may order them otherwise.
+   Without ties the result does not depend on that order, and the theorem needs no FIFO or
+   fairness hypothesis.  (R1), (R2) keep the arrivals a static list; relaxing them needs a
+   fixpoint over the tasks' schedules.
+   As before: complete runs of the composite model, both modules, any number of tasks, all
+   other steps of the fragment mixed in; the run ends, all tasks finished, logs = exp_run. *)
+Theorem C05_composite_timeout_recv_exact :
+  (forall rcv d ch, frag_step2 rcv (STimeoutRecv d ch) <-> rcv = true /\ d < FARK) /\
+  (forall rcv ch d, frag_step2 rcv (SHandOver ch d) <-> rcv = false /\ d = 0) /\
+  (forall now iv arr ch d r, exp_run now iv arr (SHandOver ch d :: r) = now :: exp_run now iv arr r) /\
+  (forall now iv arr d ch r, exp_run now iv arr (STimeoutRecv d ch :: r) =
+     match arr ch with
+     | a :: _ => if a <? now + d then N.max now a :: 1 :: exp_run (N.max now a) iv (arr_pop arr ch) r
+                 else (now + d) :: 0 :: exp_run (now + d) iv arr r
+     | [] => (now + d) :: 0 :: exp_run (now + d) iv arr r
+     end) /\
+  (forall now iv arr d ch r, recv_ok now iv arr (STimeoutRecv d ch :: r) <->
+     (now + d < TMAX /\ match arr ch with a :: _ => a <> now + d | [] => True end) /\
+     recv_ok (step_time now iv arr (STimeoutRecv d ch)) iv (step_arr now arr (STimeoutRecv d ch)) r) /\
+  (forall ts m c, sortedN (arrivals ts m c) /\
+     Permutation (flat_map (fun tk0 => if t_mod tk0 =? m then on_chan c (exp_sends (t_start tk0) None (t_steps tk0)) else []) ts) (arrivals ts m c)) /\
+  (forall ts, chan_ok ts <-> Forall (init_ok2 (arrivals ts)) ts /\ one_recv ts) /\
+  (forall ts, chan_ok ts ->
+     exists w, run_tasks true ts = (w, true) /\
+       Forall2 (fun tk0 tk => t_fin tk = true /\ t_log tk = exp_run (t_start tk0) None (arrivals ts (t_mod tk0)) (t_steps tk0)) ts (w_tasks w)).
+Proof.
+  split; [intros rcv d ch; reflexivity|]. split; [intros rcv ch d; reflexivity|]. split; [reflexivity|].
+  split; [intros now iv arr d ch r; cbn [exp_run step_log step_time step_iv step_arr recv_hit app];
+          destruct (arr ch) as [|a l]; [reflexivity|cbn [recv_hit]; destruct (a <? now + d); reflexivity]|].
+  split; [intros now iv arr d ch r; reflexivity|].
+  split; [intros ts m c; split; [apply isort_sorted|apply isort_perm]|].
+  split; [intros ts; reflexivity|exact composite_exact].
+Qed.
+Print Assumptions C05_composite_timeout_recv_exact.
+
 Theorem C05_fragment_scripts_decode_ok : forall input,
-  Forall (fun tk => Forall frag_step (t_steps tk) /\ Forall (fun x => x < TMAX) (exp_run (t_start tk) None (t_steps tk))) (decode input) ->
+  Forall (fun tk => Forall frag_step (t_steps tk) /\ Forall (fun x => x < TMAX) (exp_run (t_start tk) None noarr (t_steps tk))) (decode input) ->
   Forall init_ok (decode input).
 Proof. exact decode_init_ok. Qed.
 Print Assumptions C05_fragment_scripts_decode_ok.
@@ -486,7 +548,7 @@ Proof. vm_compute. reflexivity. Qed.
 Example C05_nonvacuous_reset_drop :
   let script := [1; 3; 10; 0; 0; 6; 1; 5; 10; 7; 5; 1; 10; 9; 0; 3; 7; 7; 6; 1; 20; 7; 8; 12; 1; 0; 1; 10; 6; 0; 3; 0; 6; 1; 4; 4] in
   Forall init_ok (decode script) /\
-  map (fun tk => exp_run (t_start tk) None (t_steps tk)) (decode script) = [[10; 10; 20]; [3; 10; 10]; [10; 10; 14]] /\
+  map (fun tk => exp_run (t_start tk) None noarr (t_steps tk)) (decode script) = [[10; 10; 20]; [3; 10; 10]; [10; 10; 14]] /\
   firstn 17 (run script) = [3; 10; 10; 20; 1;  3; 3; 10; 10; 1;  3; 10; 10; 14; 1;  1; 20].
 Proof.
   cbn zeta. split; [|vm_compute; split; reflexivity].
@@ -504,7 +566,7 @@ Example C05_nonvacuous_timeout_sleep :
   let script := [1; 3; 15; 0; 0; 3; 10; 0; 4; 3; 5; 0; 5; 3; 3; 0; 8; 8;  16; 1; 2; 3; 2; 0; 2; 1; 5; 3; 0; 0; 1; 3; 4; 0; 0;
                  12; 0; 0; 3; 7; 0; 9; 1; 2; 3; 3; 0; 3] in
   Forall init_ok (decode script) /\
-  map (fun tk => exp_run (t_start tk) None (t_steps tk)) (decode script) = [[4; 1; 9; 1; 12; 0; 12]; [4; 1; 9; 9; 0; 9; 1]; [7; 0; 9; 12; 1]] /\
+  map (fun tk => exp_run (t_start tk) None noarr (t_steps tk)) (decode script) = [[4; 1; 9; 1; 12; 0; 12]; [4; 1; 9; 9; 0; 9; 1]; [7; 0; 9; 12; 1]] /\
   firstn 27 (run script) = [7; 4; 1; 9; 1; 12; 0; 12; 1;  7; 4; 1; 9; 9; 0; 9; 1; 1;  5; 7; 0; 9; 12; 1; 1;  1; 12].
 Proof.
   cbn zeta. split; [|vm_compute; split; reflexivity].
@@ -521,7 +583,7 @@ Example C05_nonvacuous_interval :
   let script := [1; 3; 10; 0; 0; 5; 10000000; 2; 4; 0; 27000000; 0; 0;  11; 0; 0; 5; 10000000; 0; 4; 0; 27000000; 0; 0; 8;
                  12; 1; 3000000; 5; 10000000; 1; 4; 0; 27000000; 0; 2000000; 1; 1000000] in
   Forall init_ok (decode script) /\
-  map (fun tk => exp_run (t_start tk) None (t_steps tk)) (decode script) =
+  map (fun tk => exp_run (t_start tk) None noarr (t_steps tk)) (decode script) =
     [[0; 0; 10000000; 10000000; 37000000; 37000000; 20000000; 40000000; 40000000];
      [0; 0; 10000000; 10000000; 37000000; 37000000; 20000000; 37000000; 30000000; 37000000];
      [3000000; 3000000; 13000000; 13000000; 40000000; 40000000; 23000000; 50000000; 50000000; 52000000; 53000000]] /\
@@ -547,7 +609,7 @@ Example C05_nonvacuous_keepalive_select :
                  26; 1; 2; 13; 0; 0; 9; 2; 1; 13; 1; 1; 5; 0; 0; 13; 1; 1; 0; 3; 2; 13; 1; 2305843009213693952; 6; 0; 3;
                  10; 0; 0; 1; 4; 13; 1; 3; 8; 7; 5] in
   Forall init_ok (decode script) /\
-  map (fun tk => exp_run (t_start tk) None (t_steps tk)) (decode script) =
+  map (fun tk => exp_run (t_start tk) None noarr (t_steps tk)) (decode script) =
     [[4; 1; 11; 14; 0; 14]; [4; 1; 4; 4; 1; 4; 4; 0; 4; 1; 7]; [4; 11; 1; 16]] /\
   firstn 29 (run script) = [6; 4; 1; 11; 14; 0; 14; 1;  11; 4; 1; 4; 4; 1; 4; 4; 0; 4; 1; 7; 1;  4; 4; 11; 1; 16; 1;  1; 16].
 Proof.
@@ -563,10 +625,31 @@ Example C05_nonvacuous_select :
   let script := [1; 3; 19; 0; 0; 4; 1; 3; 7; 4; 0; 5; 5; 4; 1; 5; 5; 4; 0; 9; 2; 8;
                  14; 1; 1; 4; 0; 0; 4; 4; 1; 2; 0; 4; 0; 0; 0;   8; 0; 3; 1; 4; 4; 1; 6; 3] in
   Forall init_ok (decode script) /\
-  map (fun tk => exp_run (t_start tk) None (t_steps tk)) (decode script) =
+  map (fun tk => exp_run (t_start tk) None noarr (t_steps tk)) (decode script) =
     [[3; 0; 8; 2; 13; 0; 15; 1; 15]; [1; 0; 1; 1; 1; 2]; [7; 10; 1]] /\
   firstn 25 (run script) = [9; 3; 0; 8; 2; 13; 0; 15; 1; 15; 1;  6; 1; 0; 1; 1; 1; 2; 1;  3; 7; 10; 1; 1;  1].
 Proof.
   cbn zeta. split; [|vm_compute; split; reflexivity].
   apply decode_init_ok. init_ok_by_computation.
+Qed.
+
+(* non-vacuity of (2b): two modules, four tasks.  Task 0 (module 0) sends into channel 0 at 5 and
+   15 and into channel 1 at 15.  Task 1 (module 0) receives: timeout(8, ch 0) begun at 0 is Ok at 5,
+   the instant of the send; timeout(3, ch 0) begun at 5 elapses at 8 (next message: 15); after
+   sleeping to 18, timeout(0, ch 0) finds the message of 15 waiting: Ok at 18; timeout(4, ch 1):
+   waiting as well, Ok at 18; timeout(2, ch 1): nothing more, Elapsed at 20.  Task 2 (module 1,
+   message at 3): timeout(4, ch 0) elapses at 7 -- the only message of module 1 is sent at 20, by
+   task 3, and is never received.  The hypotheses hold (by computation, chan_okb) and the model's
+   run gives the demanded logs. *)
+Example C05_nonvacuous_timeout_recv :
+  let script := [1; 4; 16; 0; 0; 1; 5; 9; 0; 0; 1; 10; 9; 0; 0; 8; 9; 1; 0;
+                 19; 0; 0; 11; 8; 0; 11; 3; 0; 1; 10; 11; 0; 0; 11; 4; 1; 11; 2; 1;
+                 7; 1; 3; 11; 4; 0; 1; 1;   8; 1; 0; 1; 20; 9; 0; 0; 8] in
+  chan_ok (decode script) /\
+  (arrivals (decode script) 0 0, arrivals (decode script) 0 1, arrivals (decode script) 1 0) = ([5; 15], [15], [20]) /\
+  map (fun tk => exp_run (t_start tk) None (arrivals (decode script) (t_mod tk)) (t_steps tk)) (decode script) =
+    [[5; 5; 15; 15; 15; 15]; [5; 1; 8; 0; 18; 18; 1; 18; 1; 20; 0]; [7; 0; 8]; [20; 20; 20]] /\
+  firstn 33 (run script) = [6; 5; 5; 15; 15; 15; 15; 1;  11; 5; 1; 8; 0; 18; 18; 1; 18; 1; 20; 0; 1;  3; 7; 0; 8; 1;  3; 20; 20; 20; 1;  1; 20].
+Proof.
+  cbn zeta. split; [apply decode_chan_okb; vm_compute; reflexivity|]. vm_compute. repeat split; reflexivity.
 Qed.
